@@ -254,6 +254,10 @@ pub fn ref_leb(mut v: u64) -> Vec<u8> {
 
 /// string/byte-array lengths of DESIGN §7 C13
 pub const BLOB_LENS: [usize; 6] = [0, 1, 127, 128, 16383, 16384];
+/// lengths around the 64 KiB chunk of `DataInput::read_vec` (a threshold visible in the code) and the next LEB128 boundary;
+/// kept apart from BLOB_LENS so that indices recorded in witnesses stay stable
+pub const BIG_BLOB_LENS_QUICK: [usize; 4] = [65535, 65536, 65537, 131073];
+pub const BIG_BLOB_LENS_THOROUGH: [usize; 8] = [65535, 65536, 65537, 131071, 131072, 131073, 2097151, 2097153];
 
 pub fn blob(len: usize, kind: u8) -> Vec<u8> {
     match kind {
